@@ -334,7 +334,11 @@ func crashJob(raw json.RawMessage) (interface{}, error) {
 						}
 					}
 					if len(post) == 0 {
-						post = append(post, surviveWrites(w, pol)...)
+						way := pol
+						if ii%2 == 1 {
+							way = 2 // every other image: the small write into the first block behind the end
+						}
+						post = append(post, surviveWrites(w, way)...)
 					}
 					if len(post) == 0 {
 						if dd := w.CompareDump(true); dd != "" {
@@ -466,7 +470,7 @@ func ruleOf(e string) string {
 // surviveWrites continues on the files that survived the crash (at most four, by handle order): an object whose
 // truncation or removal the crash interrupted may still hold blocks beyond its end.  Way 0 writes across the end
 // of the file into the middle of the next block, grows it and reads the grown part; way 1 writes far beyond the end (beyond any earlier length) and
-// reads the gap.  The reference model says what must be read: zeros where nothing was written.  On tiny disks the
+// reads the gap; way 2 writes a few bytes into the block at the end of the file and reads that block.  The reference model says what must be read: zeros where nothing was written.  On tiny disks the
 // writes may be refused or short for lack of space.
 func surviveWrites(w *World, way int) []string {
 	var fhs []string
@@ -493,6 +497,16 @@ func surviveWrites(w *World, way int) []string {
 		if way == 0 {
 			ops = []fsx.Op{{K: "WRITE", H: h, Off: from, Cnt: 4096 + 500, Pat: 0x5b, Stable: 2}, {K: "SETATTR", H: h, Size: sz + 3*4096 + 100},
 				{K: "READ", H: h, Off: from, Cnt: 4 * 4096}, {K: "SETATTR", H: h, Size: sz}}
+		} else if way == 2 {
+			// a few bytes inside the block that begins at or contains the end of the file, away from both of its ends:
+			// whatever the file held there before the crash must not come back with them
+			at := (sz+4095)/4096*4096 + 100
+			if sz%4096 != 0 && sz%4096 < 3000 {
+				at = sz + 50
+			}
+			blk := at / 4096 * 4096
+			ops = []fsx.Op{{K: "WRITE", H: h, Off: at, Cnt: 10, Pat: 0x5d, Stable: 2}, {K: "READ", H: h, Off: blk, Cnt: 4096},
+				{K: "SETATTR", H: h, Size: blk + 4096}, {K: "READ", H: h, Off: blk, Cnt: 8192}, {K: "SETATTR", H: h, Size: sz}}
 		} else {
 			ops = []fsx.Op{{K: "WRITE", H: h, Off: sz + 1300*4096, Cnt: 1, Pat: 0x5c, Stable: 2}, {K: "READ", H: h, Off: from, Cnt: 3 * 4096},
 				{K: "READ", H: h, Off: sz + 1299*4096, Cnt: 8192}, {K: "SETATTR", H: h, Size: sz}}
